@@ -55,7 +55,9 @@ Definition fconst_id (c : fconst) : Z :=
 (* ---- values: a float and the oracle requests that could not be answered on the way to it ---- *)
 Record xf := XF { xv : float; xmiss : list okey }.
 Definition xpure (v : float) : xf := XF v [].
-Definition xapp (a b : list okey) : list okey := match a with [] => b | _ => match b with [] => a | _ => a ++ b end end.
+(* pending oracle requests are only hints for the next round: keep at most 12 of them, otherwise the lists double with
+   every operation of a long computation *)
+Definition xapp (a b : list okey) : list okey := match a with [] => b | _ => match b with [] => a | _ => firstn 12 (a ++ b) end end.
 Definition x1 (f : float -> float) (a : xf) : xf := XF (f (xv a)) (xmiss a).
 Definition x2 (f : float -> float -> float) (a b : xf) : xf := XF (f (xv a) (xv b)) (xapp (xmiss a) (xmiss b)).
 Definition xcmp (f : float -> float -> bool) (a b : xf) : bool := f (xv a) (xv b).
